@@ -5,7 +5,9 @@ import (
 	"math"
 
 	"gonum.org/v1/gonum/blas"
+	"gonum.org/v1/gonum/blas/blas64"
 	"gonum.org/v1/gonum/lapack"
+	"gonum.org/v1/gonum/lapack/lapack64"
 
 	"gonum.org/v1/gonum/verifharness/internal/core"
 )
@@ -124,6 +126,21 @@ func tdFamily(c *inst, raw json.RawMessage, full bool, sum *core.Summary) {
 						k.fail("Dgtsv", "touch", "a band vector was written beyond its length")
 					}
 				}
+			}
+			// the same system through the lapack64 wrapper
+			dl, dd, du = vec(c.Gdl, 2), vec(c.Gd, 2), vec(c.Gdu, 2)
+			gb = build(c.GB, 2, n, nrhs, ldb, 1)
+			k.where = desc("lapack64.Gtsv", "n", n, "nrhs", nrhs, "ldb", ldb, "interchanges forced", c.Npiv)
+			if k.run("lapack64.Gtsv", func() {
+				ok = lapack64.Gtsv(blas.NoTrans, lapack64.Tridiagonal{N: n, DL: dl[:maxi(0, n-1)], D: dd[:n], DU: du[:maxi(0, n-1)]},
+					blas64.General{Rows: n, Cols: nrhs, Stride: ldb, Data: gb})
+			}) {
+				count()
+				if !ok {
+					k.fail("lapack64.Gtsv", "ok", "ok = false for a non-singular matrix")
+				}
+				k.cmpMat("lapack64.Gtsv", "X", gb, ldb, c.X, 1, n, nrhs, nil)
+				k.cmpPad("lapack64.Gtsv", "b", gb, ldb, n, nrhs)
 			}
 		}
 	}
